@@ -304,3 +304,402 @@ EXPLAIN['C15'] = ('sph_j0/1/2 traced on every path for dual types and for the pl
                   'own macro text expanded at S); z3 decides: closed form exact for |x| >= eps (so a series '
                   'path reachable there is a violation), exact Taylor data at x = 0, and a 2^-20 bound against '
                   'the high-order Taylor polynomial for 0 < |x| < eps')
+
+
+# ---------------------------------------------------------------------------------------------
+# C09 powers (E1 part: all bases, real and dual exponents, listed integer exponents)
+# ---------------------------------------------------------------------------------------------
+POWI_QUICK = [-(2 ** 30), -1000, -3, -2, -1, 0, 1, 2, 3, 4, 5, 7, 1000, 2 ** 30]
+POWI_THOROUGH = sorted(set(POWI_QUICK + list(range(-8, 13)) + [46341, 46342, 1291, 1292, -1292, -46342, 65536,
+                                                            2 ** 30 - 1, -(2 ** 30) + 1, 123456789]))
+
+
+def c09_e1(run):
+    rng = random.Random(run.seed)
+    specs = []
+    shapes = shapes_for(run.tier)
+    for sh in shapes:
+        pats = presence_patterns(sh, 1, run.tier, rng, cap=2 if run.tier == 'quick' else 8)
+        for p in pats:
+            for n in (POWI_QUICK if run.tier == 'quick' else POWI_THOROUGH):
+                specs.append((sh, f'powi:{n}', p))
+            specs.append((sh, 'powf', p))
+            for v in ('0.5', '-1.5', '2.5', '0.3333333333333333', '3', '-2', '7.25'):
+                specs.append((sh, f'powfc:{v}', p))
+            specs.append((sh, 'un:recip', p))
+            specs.append((sh, 'un:sqrt', p))
+            specs.append((sh, 'un:cbrt', p))
+        for p in presence_patterns(sh, 2, run.tier, rng, cap=2 if run.tier == 'quick' else 8):
+            specs.append((sh, 'powd', p))
+
+    def role(case):
+        k = case['kind']
+        if k.startswith('powi'):
+            n = int(k.split(':')[1])
+            return 'C09:powi:coefficient-overflow' if abs(n) >= 1292 else 'C09:powi'
+        return 'C09:' + k.split(':')[0]
+    run_algebra(run, specs, role, 'c09', extra_assume=eps_path_assumptions)
+    run.notes.append('cross-agreement powi(n) = powf(n) = repeated multiplication = exp(n ln x), recip = '
+                     'powi(-1), sqrt = powf(1/2), cbrt = powf(1/3): every one of them is decided equal to the '
+                     'same oracle x^n (sympy derivatives) on the common domain, so they agree pairwise')
+    run.notes.append('on a path selected by |n - c| < eps the obligation is stated for n = c (stated bound)')
+
+
+# ---------------------------------------------------------------------------------------------
+# "same" obligations: several outputs of one case must agree (C07, C08)
+# ---------------------------------------------------------------------------------------------
+def euf_identical(run, pairs):
+    """number of pairs whose two terms are the same operation sequence on the same inputs
+    (decided by z3 over uninterpreted functions with commutativity of add/mul)"""
+    enc = ir.EufEnc()
+    s = run.solver()
+    U = ir._U
+    x, y = z3.Consts('x y', U)
+    for fn_name in ('add', 'mul'):
+        f = enc.f(fn_name, 2)
+        s.add(z3.ForAll([x, y], f(x, y) == f(y, x)))
+    cnt = 0
+    for (a, b) in pairs:
+        if a is None and b is None:
+            cnt += 1
+            continue
+        if a is None or b is None:
+            continue
+        ea, eb = enc.enc(a), enc.enc(b)
+        if ea.eq(eb):
+            cnt += 1
+            continue
+        s.push()
+        s.add(ea != eb)
+        if run.check(s) == z3.unsat:
+            cnt += 1
+        s.pop()
+    return cnt
+
+
+def _same_chunk(run, args):
+    specs, groups_fn, role, tag, domain_fn = args
+    cases = trace(specs, tag, run.seed)
+    for case in cases:
+        run.cases += 1
+        run.instantiations.add(case['shape'] + '<S>')
+        run.functions.add(case['kind'])
+        if not check_validation(run, case):
+            continue
+        terms = ir.dag_to_terms(case['dag'])
+        for path in case['paths']:
+            res = path['result']
+            if 'panic' in res:
+                assume = []
+                pctx = PathCtx(run, case, path, terms, assume)
+                run.paths += 1
+                if decide_infeasible(run, case, pctx, 'panic path: ' + res['panic'][:80], role(case)):
+                    run.infeasible_paths += 1
+                continue
+            outs = {n: algebra.leaves_terms(terms, l) for (n, l) in res['outputs']}
+            obs = []
+            eufpairs = []
+            for (ref, others, exact) in groups_fn(case, outs):
+                for o in others:
+                    for i, (a, b) in enumerate(zip(outs[o], outs[ref])):
+                        obs.append((f'{o}#{i}', a, b if b is not None else ZERO))
+                        if exact:
+                            eufpairs.append((a, b))
+            assume = domain_fn(case, res, terms) if domain_fn else []
+            assume = assume + eps_path_assumptions(case, path, res, terms)
+            pctx = PathCtx(run, case, path, terms, assume)
+            r = decide_path(run, case, pctx, obs, role(case), revars=revars_of(res, terms))
+            if r != 'infeasible' and eufpairs:
+                n = euf_identical(run, eufpairs)
+                run.notes_euf = getattr(run, 'notes_euf', [0, 0])
+                run.notes_euf[0] += n
+                run.notes_euf[1] += len(eufpairs)
+        if len(run.samples) < 3 and case['paths'] and 'panic' not in case['paths'][0]['result']:
+            r0 = case['paths'][0]['result']
+            run.sample({'case': case_id(case), 'outputs_compared': [n for (n, _l) in r0['outputs']],
+                        'paths': len(case['paths']),
+                        'obligation': 'every leaf of each output equals the corresponding leaf of the reference '
+                                      'output for all real operand values (absent = 0)'})
+
+
+def run_same(run, specs, groups_fn, role, tag, domain_fn=None, chunk=40):
+    chunks = [(specs[i:i + chunk], groups_fn, role, tag, domain_fn) for i in range(0, len(specs), chunk)]
+    parallel(run, _same_chunk, chunks)
+
+
+def kind_domain(case, res, terms):
+    """domain assumptions of the underlying operation (reuses the primary oracle builder)"""
+    try:
+        _obs, assume = algebra.primary(case, res, terms)
+        return assume
+    except (ValueError, KeyError):
+        return []
+
+
+# ---------------------------------------------------------------------------------------------
+# C07 absent == zero
+# ---------------------------------------------------------------------------------------------
+C07_SHAPES_QUICK = ['DualVec2', 'DualVecD2', 'Dual2VecD2', 'HyperDualVec21']
+C07_SHAPES_ALL = ['DualVec1', 'DualVec2', 'DualVec3', 'DualVecD2', 'Dual2Vec1', 'Dual2Vec2', 'Dual2VecD2',
+                  'HyperDualVec11', 'HyperDualVec21', 'HyperDualVec12', 'HyperDualVec22', 'HyperDualVecD22',
+                  'DualVec2<Dual>', 'Dual<DualVec2>', 'Dual2VecD2<Dual>']
+
+
+def c07(run):
+    rng = random.Random(run.seed)
+    shapes = C07_SHAPES_QUICK if run.tier == 'quick' else C07_SHAPES_ALL
+    specs = []
+    un = C01_FUNCS + ['neg', 'inv', 'sph_j0', 'sph_j1', 'sph_j2']
+    for sh in shapes:
+        cap1 = 8 if run.tier == 'quick' else 64
+        cap2 = 16 if run.tier == 'quick' else 256
+        p1 = presence_patterns(sh, 1, run.tier, rng, cap=cap1)
+        p2 = presence_patterns(sh, 2, run.tier, rng, cap=cap2)
+        p3 = presence_patterns(sh, 3, run.tier, rng, cap=cap2)
+        for p in p1:
+            for f in un:
+                specs.append((sh, f'az:un:{f}', p))
+            specs.append((sh, 'az:sincos', p))
+            specs.append((sh, 'az:powf', p))
+            specs.append((sh, 'az:log', p))
+            for n in (-2, 0, 1, 2, 3, 5):
+                specs.append((sh, f'az:powi:{n}', p))
+            for op in ('add', 'sub', 'mul', 'div'):
+                specs.append((sh, f'az:scalar:{op}', p))
+        for p in p2:
+            for op in ('add', 'sub', 'mul', 'div'):
+                specs.append((sh, f'az:bin:{op}', p))
+                specs.append((sh, f'az:assign:{op}', p))
+            specs.append((sh, 'az:atan2', p))
+            specs.append((sh, 'az:powd', p))
+            specs.append((sh, 'az:abs_sub', p))
+        for p in p3:
+            specs.append((sh, 'az:mul_add', p))
+
+    def groups(case, outs):
+        g = []
+        for n in outs:
+            if n.endswith('_zf'):
+                g.append((n, [n[:-3]], False))
+        return g
+
+    def dom(case, res, terms):
+        k = case['kind']
+        if k.startswith('az:assign:'):
+            op = k.split(':')[2]
+            if op == 'div':
+                b = terms[dict(res['inputs'])['b'][0]]
+                return [('ne', b, ZERO)]
+            return []
+        if k.startswith('az:scalar:'):
+            if k.endswith('div'):
+                return [('ne', terms[res['scalars'][0][1]], ZERO)]
+            return []
+        return kind_domain(case, res, terms)
+    run.bounds = {'dimensions': '<= 3 (static) / 2 (dynamic)', 'presence patterns': 'all 2^k when <= cap, else '
+                  'all-absent, all-present, single-absent, single-present and seeded random ones',
+                  'induction': 'each operation maps an arbitrary operand in any representation and its '
+                               'zero-filled twin to equal results; by induction this covers sequences of '
+                               'compound assignments of any length'}
+    run_same(run, specs, groups, lambda c: 'C07:' + c['kind'].replace('az:', ''), 'c07', dom)
+    dv = dv_specs(run.tier)
+    parallel(run, _dv_chunk, [dv[i:i + 30] for i in range(0, len(dv), 30)])
+
+
+EXPLAIN['C07'] = ('every operation is traced on operands with each presence pattern and again on the same operands '
+                  'with absent parts replaced by explicit zero matrices; z3 decides equality of every result part '
+                  '(absent read as 0) for all real values: the representation relation is preserved by every '
+                  'single step from an arbitrary state, hence along any sequence of operations')
+
+
+# ---- direct operators of the public Derivative container --------------------------------------
+DV_SHAPES = {'DV21': (2, 1), 'DV12': (1, 2), 'DV22': (2, 2), 'DV23': (2, 3), 'DVD21': (2, 1), 'DVD22': (2, 2)}
+
+
+def dv_specs(tier):
+    specs = []
+    shapes = ['DV21', 'DV22', 'DVD21'] if tier == 'quick' else list(DV_SHAPES)
+    for sh in shapes:
+        for p in range(4):
+            for f in ('own_own', 'own_ref', 'ref_ref', 'assign'):
+                specs.append((sh, f'dv:add:{f}', p))
+                specs.append((sh, f'dv:sub:{f}', p))
+            specs.append((sh, 'dv:tr_mul', p))
+            specs.append((sh, 'dv:matmul', p))
+        for p in range(2):
+            specs += [(sh, 'dv:neg:own', p), (sh, 'dv:neg:ref', p), (sh, 'dv:unwrap', p)]
+            for f in ('own', 'ref', 'assign'):
+                specs.append((sh, f'dv:mul_t:{f}', p))
+                specs.append((sh, f'dv:div_t:{f}', p))
+    return specs
+
+
+def _dv_chunk(run, specs):
+    cases = trace(specs, 'dv', run.seed)
+    for case in cases:
+        run.cases += 1
+        run.instantiations.add(f"Derivative<S,S,{case['shape']}>")
+        run.functions.add(case['kind'])
+        if not check_validation(run, case):
+            continue
+        terms = ir.dag_to_terms(case['dag'])
+        nr, nc = DV_SHAPES[case['shape']]
+        op = case['kind'].split(':')[1]
+        for path in case['paths']:
+            res = path['result']
+            if 'panic' in res:
+                run.inconclusive.append({'case': case_id(case), 'reason': 'panic: ' + res['panic'][:80]})
+                continue
+            ins = {n: [t if t is not None else ZERO for t in algebra.leaves_terms(terms, l)]
+                   for (n, l) in res['inputs']}
+            y = algebra.leaves_terms(terms, res['outputs'][0][1])
+            a = ins['a']
+            A = lambda i, j: a[j * nr + i]
+            assume = []
+            if op in ('add', 'sub'):
+                b = ins['b']
+                want = [ir.add(x, z) if op == 'add' else ir.sub(x, z) for x, z in zip(a, b)]
+            elif op == 'neg':
+                want = [ir.neg(x) for x in a]
+            elif op == 'unwrap':
+                want = a
+            elif op in ('mul_t', 'div_t'):
+                t = terms[res['scalars'][0][1]]
+                if op == 'div_t':
+                    assume.append(('ne', t, ZERO))
+                want = [ir.mul(x, t) if op == 'mul_t' else ir.div(x, t) for x in a]
+            elif op == 'tr_mul':
+                b = ins['b']
+                B = lambda i, j: b[j * nr + i]
+                want = []
+                for j in range(nc):
+                    for i in range(nc):
+                        s_ = ZERO
+                        for k in range(nr):
+                            s_ = ir.add(s_, ir.mul(A(k, i), B(k, j)))
+                        want.append(s_)
+            elif op == 'matmul':
+                b = ins['b']   # c x r, column-major
+                B = lambda i, j: b[j * nc + i]
+                want = []
+                for j in range(nr):
+                    for i in range(nr):
+                        s_ = ZERO
+                        for k in range(nc):
+                            s_ = ir.add(s_, ir.mul(A(i, k), B(k, j)))
+                        want.append(s_)
+            obs = [(f'y#{i}', l, r) for i, (l, r) in enumerate(zip(y, want))]
+            pctx = PathCtx(run, case, path, terms, assume)
+            decide_path(run, case, pctx, obs, 'C07:derivative-container:' + op, revars=None, split=False)
+
+
+# ---------------------------------------------------------------------------------------------
+# C08 syntactic forms
+# ---------------------------------------------------------------------------------------------
+def c08(run):
+    rng = random.Random(run.seed)
+    shapes = ['Real'] + shapes_for(run.tier)
+    specs = []
+    for sh in shapes:
+        p2 = presence_patterns(sh, 2, run.tier, rng, cap=4 if run.tier == 'quick' else 16)
+        p1 = presence_patterns(sh, 1, run.tier, rng, cap=4 if run.tier == 'quick' else 8)
+        for p in p2:
+            for op in ('add', 'sub', 'mul', 'div'):
+                specs.append((sh, f'forms:{op}', p))
+            specs.append((sh, 'negforms', p))
+        for p in p1:
+            for op in ('add', 'sub', 'mul', 'div'):
+                specs.append((sh, f'scalar:{op}', p))
+        if sh != 'Real':
+            for p in presence_patterns(sh, 3, run.tier, rng, cap=4 if run.tier == 'quick' else 16):
+                specs.append((sh, 'mul_add', p))
+                specs.append((sh, 'sumprod:3', p))
+            for p in p2:
+                specs.append((sh, 'sumprod:2', p))
+            specs.append((sh, 'sumprod:0', 0))
+            specs.append((sh, 'sumprod:1', (1 << ngroups(sh)) - 1))
+            specs.append((sh, 'consts', 0))
+            specs.append((sh, 'fromprim', 0))
+
+    def groups(case, outs):
+        k = case['kind'].split(':')[0]
+        if k == 'forms':
+            return [('ref_ref', ['own_own', 'own_ref', 'ref_own', 'assign'], True)]
+        if k == 'negforms':
+            return [('neg_ref', ['neg_own'], True), ('recip', ['inv'], True)]
+        if k == 'scalar':
+            return [('scalar', ['scalar_assign'], True), ('lifted', ['scalar'], False)]
+        if k == 'mul_add':
+            return [('ref', ['y'], True)]
+        if k == 'sumprod':
+            return [('sum_fold', ['sum_own', 'sum_ref'], True), ('prod_fold', ['prod_own', 'prod_ref'], True)]
+        return []
+
+    def dom(case, res, terms):
+        k = case['kind']
+        ins = dict(res['inputs'])
+        if k in ('forms:div',):
+            return [('ne', terms[ins['b'][0]], ZERO)]
+        if k == 'negforms':
+            return [('ne', terms[ins['b'][0]], ZERO)]
+        if k == 'scalar:div':
+            return [('ne', terms[res['scalars'][0][1]], ZERO)]
+        return []
+    main_specs = [s for s in specs if s[1] not in ('consts', 'fromprim')]
+    run_same(run, main_specs, groups, lambda c: 'C08:' + c['kind'], 'c08', dom)
+    const_specs = [s for s in specs if s[1] in ('consts', 'fromprim')]
+    parallel(run, _c08_const_chunk, [const_specs[i:i + 6] for i in range(0, len(const_specs), 6)])
+    run.bounds = {'items in Sum/Product': '0..3', 'presence patterns': 'capped, see C02',
+                  'note': 'equality is decided in exact real arithmetic (the pass/fail criterion); where the '
+                          'two forms are additionally the same operation sequence this is recorded as '
+                          'bit-identical (EUF)'}
+
+
+def _c08_const_chunk(run, specs):
+    cases = trace(specs, 'c08c', run.seed)
+    for case in cases:
+        run.cases += 1
+        run.instantiations.add(case['shape'] + '<S>')
+        run.functions.add(case['kind'])
+        if not check_validation(run, case):
+            continue
+        terms = ir.dag_to_terms(case['dag'])
+        for path in case['paths']:
+            res = path['result']
+            if 'panic' in res:
+                run.inconclusive.append({'case': case_id(case), 'reason': 'panic ' + res['panic'][:60]})
+                continue
+            outs = {n: algebra.leaves_terms(terms, l) for (n, l) in res['outputs']}
+            obs = []
+            exact = []
+
+            def const_is(name, re_term):
+                lv = outs[name]
+                obs.append((f'{name}#0', lv[0], re_term))
+                exact.append((lv[0], re_term))
+                for i, t in enumerate(lv[1:], 1):
+                    obs.append((f'{name}#{i}', t, ZERO))
+            if case['kind'] == 'consts':
+                const_is('zero', ZERO)
+                const_is('one', ONE)
+                f = terms[res['scalars'][0][1]]
+                const_is('from_f', f)
+                for n in outs:
+                    if n.startswith('const_'):
+                        const_is(n, outs['f' + n][0])
+            else:
+                for n in outs:
+                    if not n.startswith('f_'):
+                        const_is(n, outs['f_' + n][0])
+            pctx = PathCtx(run, case, path, terms, [])
+            decide_path(run, case, pctx, obs, 'C08:' + case['kind'], revars=None, split=False)
+            n = euf_identical(run, exact)
+            if n != len(exact):
+                run.violations.append({'case': case_id(case), 'role': 'C08:' + case['kind'],
+                                       'obligation': 'real part of a constant is the very constant of the float type',
+                                       'detail': f'{len(exact) - n} constant(s) are not the float constant itself'})
+
+
+EXPLAIN['C08'] = ('all operator forms are traced in one case each and z3 decides leaf-wise equality with the '
+                  'reference form for all real values and presence patterns; constants/conversions: real part '
+                  'is the float constant itself (EUF-identical), every derivative part zero or absent')
